@@ -367,6 +367,25 @@ pub fn for_property(prop: &str, tier: Tier) -> Vec<(SysCfg, RunOpts)> {
                 }
             }
         }
+        "C13P" => {
+            // the same closed systems on an adaptor and on its underlying reference-yielding iterator: the driver
+            // compares the complete outcome sets (which thread received which positions, query answers, remainder)
+            let ks = [K::Slice, K::ClonedSlice, K::CopiedSlice, K::VecRef, K::ClonedVecRef, K::RefIter, K::ClonedIter, K::RefIterUnk, K::CopiedIter];
+            let m = menu(&["FE2", "EF3", "FO2", "FE1", "DB2", "DC2", "DN", "N,N", "C2:1,I", "B2x1:1,N", "S,N", "L,C3,H", "C0,N"]);
+            s.pairs(&ks, &[2, 3, 4], &m, &m, &[Final::Seq], &complete2());
+            if !q {
+                let m3 = menu(&["FE2", "FO3", "DB2", "N,S", "C2"]);
+                for &kind in &ks {
+                    for x in &m3 {
+                        for y in &m3 {
+                            for z in &m3 {
+                                s.add(SysCfg { kind, len: 4, plans: vec![x.clone(), y.clone(), z.clone()], fin: Final::Seq, fault: Fault::None }, bounded(2));
+                            }
+                        }
+                    }
+                }
+            }
+        }
         "C17" => {
             // queries racing with overshooting pulls, skips and drains: outcomes are compared between a build with
             // debug assertions + overflow checks and one without
